@@ -212,3 +212,9 @@ Fixpoint classify {A} (f : A -> option N) (i : N) (l : list A) : list (N * N) :=
   | x :: r => match f x with Some c => (i, c) :: classify f (i + 1) r | None => classify f (i + 1) r end
   end.
 Definition persist_violations (cs : list pcase) : list (N * N) := classify c11_class 0 cs.
+
+(* ---- C09 on the same cases: a session that comes back from the store has the cache it was saved with
+   (frames, per-symbol limits, usage, capacity).  The class-0 clauses of the C11 monitor say exactly that;
+   K-C11-6 (class 6: no record found, leftover content of another key) is not a statement about the cache. *)
+Definition persist_violations_c09 (cs : list pcase) : list (N * N) :=
+  filter (fun p => snd p =? 0) (persist_violations cs).
